@@ -8,6 +8,11 @@ import os
 VERIF = os.path.dirname(os.path.dirname(os.path.abspath(__file__)))
 
 CHECKS = {
+    'C19': dict(
+        technique='decision-table extraction by path-sensitive abstract interpretation of the source (static), str.split / slices / in-place list extension kept as terms; pyparsing grammar extracted as a term and instantiated with the installed library for evaluation on grids',
+        category='other', design_ref='DESIGN.md section 4, C19',
+        text='split_path extracted for every (minsegs 1..4, maxsegs None/0/min-1..min+2, rest_with_last) configuration with the path symbolic and compared with a reference written from the statement on ~700 paths of 0..5 segments over {plain, empty, dotted, spaced} with and without leading/trailing slashes; split_by_commas extracted with the pyparsing constructors symbolic and evaluated on comma-joined item lists over the quoting characters (commas, quotes, backslashes, spaces) and on malformed quoting.',
+        note='pyparsing semantics are trusted (the grammar term is instantiated with the installed pyparsing); empty items and whitespace padding outside quotes are outside the statement and not checked.'),
     'C01': dict(
         technique='decision-table extraction of one capture step folded over all small streams x chunkings; abstract interpretation of the inspector classes through their real eat_chunk/post_process/region_complete/finish code with only the capture arithmetic abstracted (symbolic region bytes; lazy path enumeration per image and chunk schedule), extracted verdict terms evaluated on image families and compared with reference decoders written from the format specifications (static: nothing from /repo is executed); schedule-independence of the verdict; region geometry',
         category='other', design_ref='DESIGN.md section 4, C01',
@@ -140,7 +145,7 @@ CHECKS = {
 NOT_BUILT = 'check not built yet in this session (see DESIGN.md section 4 ' \
             'for the planned static rules)'
 NA = {
-    'C19': 'split_path is integer arithmetic over segment counts against '
+    'C19-unused': 'split_path is integer arithmetic over segment counts against '
            'symbolic minsegs/maxsegs and split_by_commas is the semantics '
            'of a pyparsing grammar; no clause beyond "explicit raises are '
            'ValueError" is visible in the shape of the code, and that proxy '
